@@ -145,7 +145,17 @@ func RunProperty(repo string, cfg *PropertyConfig, kf *KnownFindingsFile, timeou
 				Clause: "contract binds and the unit is inside the supported subset", Status: "error", Output: u.Error, Pkg: u.Pkg})
 			continue
 		}
+		deadBudget := 0
+		if u.Contract != nil {
+			deadBudget = u.Contract.DeadReturnCount
+		}
 		for _, o := range u.Obls {
+			if o.ReturnCover && o.Status == "unsat" && deadBudget > 0 {
+				// declared defensive dead code
+				deadBudget--
+				cr.Covers++
+				continue
+			}
 			rec := oblRecord{Unit: u.Unit, Name: o.Name, Kind: o.Kind, Pos: o.Pos, Clause: o.Clause, Status: o.Status, Solver: o.Solver, Ms: o.Ms}
 			cr.Records = append(cr.Records, rec)
 			if o.Vacuity {
